@@ -485,9 +485,30 @@ def check_backsubstitution(ctx: Check, tree: Tree) -> None:
                 "formulate: every alignment angle definition is stored as <definition>.xreplace(kinematic_variables) after the missing mass variables were added, then merged into the kinematic variables", problems or None)
 
 
+def check_same_topology(ctx: Check, tree: Tree) -> None:
+    """R-SAMETOPOLOGY: the symbols an alignment / adapter *defines* are produced by loops over
+    (topology, state id); an id that was read from one topology object and is combined with another
+    selects the wrong (or no) states for every further topology - the amplitude then uses symbols
+    that nobody defines ("never neither")."""
+    from ..rules import topology_mismatches
+
+    bad, n_calls = topology_mismatches(tree, ("ampform.helicity", "ampform.kinematics"))
+    if n_calls < 30:
+        raise AnalysisError(f"only {n_calls} calls with a leading `topology` argument found (63 confirmed)")
+    for b in bad:
+        fn = b["fn"]
+        ctx.violation("R-SAMETOPOLOGY", f"{fn.qual}::{unparse(b['call'].func)}::{unparse(b['other'])[:30]}", tree.loc(b["call"]),
+                      f"{fn.qual}: `{unparse(b['call'])[:70]}` combines `{unparse(b['arg'])[:30]}`, computed from `{unparse(b['other'])[:40]}` (via `{unparse(b['via'])[:50]}`), with the topology `{unparse(b['topology'])[:30]}`",
+                      "state / node ids are only meaningful for the topology they were read from")
+    if not bad:
+        ctx.ok("R-SAMETOPOLOGY", "src/ampform", f"{n_calls} calls f(topology, ..., ids): every id argument was computed from the same topology value that is passed along")
+
+
 def run(ctx: Check, tree: Tree) -> None:
     ctx.decided += [
         "R-BACKSUB: alignment-angle definitions are back-substituted with the completed kinematic variables before they become kinematic variables (structural part of clause d)",
+        "R-SAMETOPOLOGY: ids combined with a topology were computed from that same topology (alignments, adapter, builder)",
+        "R-NORMALISED: the builder requests the angle symbols of the helicity state chosen by the same predicate (is_opposite_helicity_state) that the adapter uses when it names what it defines",
         "R-KINDOMAIN: the topologies of the identical-particle permutations for which amplitudes are formulated are registered in the adapter that produces the kinematic variables",
         "R-DOMAIN: some store into the amplitude table handed to HelicityModel is keyed from the summation domain of the intensity (or the consumer defaults leftover amplitude symbols)",
         "R-SYMPAIR: every symbol family that is constructed at several sites of helicity/kinematics agrees in kind and assumptions; single producers stay single; Wigner-angle suffixes come from get_helicity_suffix",
@@ -505,3 +526,9 @@ def run(ctx: Check, tree: Tree) -> None:
     ctx.section(check_xstore, ctx, tree)
     ctx.section(check_create, ctx, tree)
     ctx.section(check_backsubstitution, ctx, tree)
+    ctx.section(check_same_topology, ctx, tree)
+    # the builder asks for the angle symbols of children[0]; the adapter names what it defines after
+    # the helicity state chosen with is_opposite_helicity_state: both must be the same convention
+    from .c04 import check_normalised
+
+    ctx.section(check_normalised, ctx, tree)
